@@ -73,8 +73,17 @@ func (f *Forwarded) UnmarshalXML(d *xml.Decoder, start xml.StartElement) error {
 		switch tt := t.(type) {
 
 		case xml.StartElement:
-			if packet, err := decodeClient(d, tt); err == nil {
-				f.Stanza = packet
+			switch tt.Name.Local {
+			case "message", "presence", "iq":
+				if packet, err := decodeClient(d, tt); err == nil {
+					f.Stanza = packet
+				}
+			default:
+				// Not a stanza (a delay stamp, an unknown extension, even another <forwarded/>): skip it as a whole,
+				// so that nothing inside it is taken for the wrapped stanza or for our own end tag
+				if err := d.Skip(); err != nil {
+					return err
+				}
 			}
 
 		case xml.EndElement:
